@@ -92,7 +92,7 @@ def run(ctx):
     for t in traces:
         c = t["consts"]
         ev = t["events"]
-        stats["profile=%s" % c["profile"].split("_")[0 if c["kind"] == "write" else 0]] += 1
+        stats["profile=%s" % (c["profile"] if c["kind"] == "write" else "read")] += 1
         if c["kind"] == "write":
             sends = [e for e in ev if e["ev"] == "Send" and e["meth"] == "write"]
             faults = [e for e in ev if e["ev"] == "Deliver" and e["fault"] not in ("none",)]
@@ -116,8 +116,9 @@ def run(ctx):
     ctx.sample({"consts": w0["consts"], "events": [short(e) for e in w0["events"]]}, limit=2)
     ctx.trace("immutable/TraceWritePipeline", traces, invariants=("TraceOK",), key_of=key_of, what_of=what_of,
               workers=4, batch=600, timeout=3000)
-    ctx.rule = ("MC: every behaviour of MCWritePipeline over the listed constants (all batch sizes from 1 to above the allocated "
-                "size); necessity runs must be rejected by TLC with the listed invariant. TRACE: %d seeded sessions: share "
+    ctx.rule = ("MC: every behaviour of MCWritePipeline in the listed modes (quick: batch sizes 1, the default and +-1 around every field "
+                "boundary; thorough: every batch size from 1 to above the allocated size); each necessity mode must be rejected by "
+                "TLC with a listed invariant. TRACE: %d seeded sessions: share "
                 "parameters (layout v1/v2, 1..%d segments, block size 1..6, N in 1..10, URI extension 1..40 bytes), batch size "
                 "1 / default / around every cumulative field boundary / random; profiles waiting (next call after the Deferred "
                 "fired), waiting + one fault (raise / disconnect at the n-th delivery), eager on an ordered transport, eager with "
